@@ -207,6 +207,12 @@ def rule1_forward(ctx, fl, v, ws):
             continue
         b = bodies[0]
         ctx.ob('C16.1', k + ': body only when wrapping', any(f.on_edge(c, p, b) for c, p in conds), 'body runs only on the wrapping edge', loc=b.loc)
+        # ... and always when wrapping: every path through the wrapper calls the body or the real function (a shortcut that answers
+        # by itself - "already initialised", "nobody waits" - decides on state the body owns)
+        rch = f.reachable_from(f.entry_inst(), blocked=[b] + reals, include_start=True)
+        skip = [r for r in f.exits() if r in rch]
+        ctx.ob('C16.1', k + ': every call reaches the body or the real function', not skip,
+               'no return is reachable without one of the two calls', loc=(skip[0].loc if skip else f.loc))
         oka = len(b.args) == len(amap)
         det = []
         if oka:
@@ -232,7 +238,7 @@ def rule1_forward(ctx, fl, v, ws):
                    'the value returned on the wrapped path is the body\'s result (or its documented translation)', loc=f.loc)
             okr = any(isinstance(val, str) and reals and reals[0].id in f.sources(val) for val, anchor in ret_cases(f))
             ctx.ob('C16.1', k + ': result of the real call returned', okr, 'the unwrapped path returns the real function\'s result', loc=f.loc)
-    ctx.floor('C16.1', 900)
+    ctx.floor('C16.1', 980)
 
 
 def rule2_static_init(ctx, fl, v):
@@ -725,6 +731,8 @@ OPTS = 'src/myth-ld.opts'
 C16M1_OLD = "  long ns = a->tv_nsec + b->tv_nsec;\n  c->tv_nsec = ns % 1000000000;"
 C16M1_NEW = "  long ns = (a->tv_nsec + b->tv_nsec) % 1000000000;\n  c->tv_nsec = ns;"
 MUTANTS = [
+    {'name': 'pthread_once wrapper answers by itself when the control is not in its initial state (seed4 C14/m3)', 'expect': 'C16.1',
+     'edits': [(WRAP, "    ret = myth_once_body((myth_once_t *)once_control, init_routine);", "    if (*once_control != PTHREAD_ONCE_INIT) ret = 0;\n    else ret = myth_once_body((myth_once_t *)once_control, init_routine);")]},
     {'name': 'pthread_equal body compares the first argument with itself', 'expect': 'C16.15',
      'edits': [('src/myth_tls_func.h', "  return t1 == t2;", "  return t1 == t1;")]},
     {'name': 'deadline addition loses the nanosecond carry (seed3 C16/m1)', 'expect': 'C16.11',
